@@ -21,16 +21,21 @@ CFG = {
                    "or by the same file-by-file copy) and a NEW node is booted on it and queried for everything"),
     "level_note": ("measure/stream table files: gates outside critical sections (mode A), interleavings inside the tsTable mutex are not explored; storage segment.go/tsdb.go/rotation.go: cooperative locks (mode B), a holder of segment.mu or the controller lock may park; bluge (series index) and pkg/fs run atomically between gates. "
                    "Retention deletes nothing in these runs (TTL 30 d; the cron job and the rotation task do run). Value fidelity of restored rows is C01's subject: rows are attributed by their unique write id and timestamp. "
-                   "Disk errors are injected only into link/mkdir calls below the snapshots directory"),
+                   "Disk errors are injected only into link/mkdir calls below the snapshots directory. The snapshot listener holds its snapshotMux for the whole request; the harness drops that mutex from "
+                   "gaterw's held-lock count at the request's first disk operation (one request per run), otherwise no gate below it would park. Engine loops never park in front of their select (Go picks at "
+                   "random among ready cases) and actor names are ordered number-aware because spawn ordinals shift with the number of schema-watcher workers (= GOMAXPROCS)"),
     "budget": {"quick": 60, "thorough": 1200},
     "det_n": {"quick": 24, "thorough": 64},
-    "rule": ("each seed draws engine schema (1-2 shards), flush timeout 1/3/10 s, merge fan-in, 2-9 history operations (batch of 1-60 rows spanning 1 s..2 days / advance 0.5 s..26 h), an optional idle period of 75-200 min "
-             "(older segments idle-close), 0-2 late batches, gates off (1 in 4) or every site armed with run-until-yield bursts of 1/4/13/51 gates and a step limit of 40/150/400/1000, 0-2 concurrent writers, 0-3 clock advances inside the race, optionally one injected "
-             "EIO on the k-th link or mkdir of the snapshot, 0-2 batches after the snapshot returned, and the restore method. Non-trivial = a snapshot was reported successful, restored and compared, or an injected "
-             "fault fired; distinct = canonical event-log digests"),
+    "rule": ("each seed draws engine (measure 3 : stream 2), schema (1-2 shards), flush timeout 1/3/10 s, merge fan-in 2-6, eager merging (1 in 2), 2-9 history operations (batch of 1-60 rows spanning 1 s..2 days / "
+             "advance 0.5 s..26 h), an optional idle period of 75-200 min (older segments idle-close), 0-2 late batches; then the race: gates on in 4 of 5 runs (the request and the concurrent writers park at every "
+             "site they reach; engine goroutines park only in the middle of a flush/merge and/or of an idle-close/reopen/retention pass, per run), run-until-yield bursts of 1/4/13/51 gates, step limit 40/150/400/1000, "
+             "0-2 concurrent writers, 0-3 clock advances of 0.5 s..11 min (favoured while the request is in progress), optionally one injected EIO on the k-th link or mkdir below the snapshots directory; afterwards "
+             "the request and the writers finish gate by gate in a fixed fair order, 0-2 more batches are written and flushed, and the copy is restored by the backup tool or by file copy. Non-trivial = a snapshot was "
+             "reported successful, restored and compared, or an injected fault fired; distinct = canonical event-log digests"),
     "expected_probes": ["reach.snapshot_ok", "reach.restored_and_compared", "reach.restored_nonempty", "reach.snapshot_raced_writer", "reach.snapshot_raced_maintenance",
                         "reach.closed_segment_in_snapshot", "reach.closed_segments_stayed_closed", "reach.restore_via_backup_tool", "reach.restore_via_copy",
-                        "reach.post_snapshot_batches_excluded", "fault.link_eio", "reach.failed_snapshot_reported"],
+                        "reach.post_snapshot_batches_excluded", "reach.snapshot_older_than_acknowledged_state", "reach.flush_during_snapshot_request",
+                        "reach.advance_while_request_links_a_table", "fault.link_eio", "fault.mkdir_eio", "reach.failed_snapshot_reported"],
     "real_vs_stub": {
         "real": ["measure/stream snapshotListener.Rev, takeGroupSnapshot, storage database.TakeFileSnapshot, segment.snapshotInto/snapshotOpen/snapshotClosed, tsTable.TakeFileSnapshot/createMetadata, pkg/fs CreateHardLink, bluge Backup of the series index",
                  "write path, introducer, flusher, merger, gc, rotation, idle reclaimer (all live during the snapshot)", "banyand/backup backupSnapshot + restoreByName with pkg/fs/remote/local",
